@@ -153,7 +153,7 @@ s = ASchema(tables=[T(cols=[AColumn('id', ('plain', 'float'), default=('float', 
 fixed('F-FLOATEXP', ['C02'], '40d2ae8', 'a float default whose repr uses an exponent (1e-05) was rendered as such and did not parse back',
       {'C02': c02(s)}, 'pydbml/renderer/dbml/default/column.py:default_to_str')
 s = ASchema(tables=[T(note="a'''b")])
-opened('F-TRIPLE', ['C02', 'C13'], "text containing ''' inside a single-line literal is escaped only at its first quote and ends the literal early",
+opened('F-TRIPLE', ['C02', 'C13'], "text containing ''' is escaped only at its first quote: inside a single-line literal, or at the end of a multi-line text, it ends the literal early",
        {'C02': c02(ASchema(tables=[T(cols=[AColumn('id', ('plain', 'int'), note="a'''b")])])), 'C13': dict(string="a'''b", arm='render')},
        'pydbml/renderer/dbml/default/utils.py:prepare_text_for_dbml', 'triple_quote_text', pinned='test_note.py::test_prepare_text_for_dbml')
 s = ASchema(tables=[T(note='a\n  \nb')])
